@@ -4,7 +4,7 @@ import json, os, re, sys, collections
 ROOT = os.path.dirname(os.path.dirname(os.path.abspath(__file__)))
 res = collections.defaultdict(dict)
 for line in open(sys.argv[1]):
-    m = re.match(r'^(C\d\d[a-g]) on (C\d\d): exit=(\d+) violations=(\d+) harness_errors=(\d+)', line)
+    m = re.match(r'^(C\d\d[a-h]) on (C\d\d): exit=(\d+) violations=(\d+) harness_errors=(\d+)', line)
     if m:
         name, chk, rc, v, h = m.group(1), m.group(2), int(m.group(3)), int(m.group(4)), int(m.group(5))
         res[name][chk] = 'caught (exit 1)' if rc == 1 else ('inconclusive (exit 2)' if rc == 2 else ('missed' if rc == 0 else 'run aborted'))
